@@ -98,6 +98,9 @@ func genEndpoint(t *rapid.T, label string) Endpoint {
 		e.Code = rapid.IntRange(1, 16).Draw(t, label+"Code")
 	case "sign":
 		n := rapid.IntRange(1, 3).Draw(t, label+"N")
+		if rapid.IntRange(0, 30).Draw(t, label+"ManyCerts") == 14 {
+			n = rapid.SampledFrom([]int{12, 40, 100}).Draw(t, label+"NMany") // nothing bounds the number of certificates in a reply
+		}
 		for i := 0; i < n; i++ {
 			ci := rapid.IntRange(0, 5).Draw(t, fmt.Sprintf("%sC%d", label, i))
 			if rapid.IntRange(0, 31).Draw(t, fmt.Sprintf("%sBig%d", label, i)) == 17 {
@@ -350,7 +353,7 @@ func behaviours(c Case) []string {
 	return b
 }
 
-const rule = "endpoint lists of length 0..4 over 127.0.0.2..5 sharing one port, served by real gRPC-over-TLS Signing servers; per endpoint: signs 1..3 certificates (small ones, rarely one of 64 KiB / 130 KiB) with comment shapes (none, one word, several words, non-ASCII, a key-type look-alike, 4 KB, 70 KB), RPC error with any status code 1..16, empty key text, unparsable key text, no listener, hangs past the per-try deadline (rare); real crypki signer (NewSigner, or NewSignerWithGensignConf from a configuration map) with real TLS material, retries = 1; 1..3 Sign calls on the same Signer, with endpoints recovering or starting to fail after the first call, at RPC level (status code) and at connection level (an address without listener starts listening; a listening one goes away); a tenth of the cases enter Sign with a cancelled or expired context (deadline failure of every endpoint); request fields generated (0..8 principals, KeyID, validity, identifier, extensions, critical options). Oracle: contacted = the prefix up to and including the first signing endpoint, in order, each once, each receiving a request proto.Equal to the input; result = that endpoint's certificates and comments, same length, CA order; no signing endpoint or an empty list => non-nil error, never (nil, nil, nil). Non-trivial: a failing endpoint before a signing one, or all failing."
+const rule = "endpoint lists of length 0..4 over 127.0.0.2..5 sharing one port, served by real gRPC-over-TLS Signing servers; per endpoint: signs 1..3 (one in 30: 12 / 40 / 100) certificates (small ones, rarely one of 64 KiB / 130 KiB) with comment shapes (none, one word, several words, non-ASCII, a key-type look-alike, 4 KB, 70 KB), RPC error with any status code 1..16, empty key text, unparsable key text, no listener, hangs past the per-try deadline (rare); real crypki signer (NewSigner, or NewSignerWithGensignConf from a configuration map) with real TLS material, retries = 1; 1..3 Sign calls on the same Signer, with endpoints recovering or starting to fail after the first call, at RPC level (status code) and at connection level (an address without listener starts listening; a listening one goes away); a tenth of the cases enter Sign with a cancelled or expired context (deadline failure of every endpoint); request fields generated (0..8 principals, KeyID, validity, identifier, extensions, critical options). Oracle: contacted = the prefix up to and including the first signing endpoint, in order, each once, each receiving a request proto.Equal to the input; result = that endpoint's certificates and comments, same length, CA order; no signing endpoint or an empty list => non-nil error, never (nil, nil, nil). Non-trivial: a failing endpoint before a signing one, or all failing."
 
 func TestC17Failover(t *testing.T) {
 	vh.Run(t, vh.Spec[Case]{Property: "C17", Name: "TestC17Failover", Rule: rule, Gen: gen, Exec: exec})
